@@ -354,7 +354,7 @@ def read_set_rule(ctx, rule: str, records):
                 r.ob(rule + ".module-reads", "%s#module.%s" % (where, e[2]), e[2] in allowed,
                      "a module is read through `.%s` on the assembly path; only the overhang accessors, the target and the record (id/citations) may be read" % e[2], where)
         for tag, v in o.path.choices:
-            if tag.startswith("arith ") and any(s in tag for s in ("n:m", "n:M[", "len:F:M[", "len:F:m")):
+            if tag.startswith("arith ") and re.search(r"(?<![A-Za-z:])n:(m\b|M\[)|len:F:(m\b|M\[)", tag):
                 key = (where, tag)
                 if key in seen:
                     continue
